@@ -81,7 +81,46 @@ def rowNumbering (w : World) : List (Nat × Nat) :=
   let uniq := all.foldl (fun (acc : List Nat) r => if acc.contains r then acc else acc ++ [r]) []
   uniq.zipIdx
 
-def showRow (w : World) (num : List (Nat × Nat)) (r : Nat) : String :=
+/-- canonical names of temporary directories (`T<k>`) and of md5-named zip members (`M<k>`): by first appearance, walking
+    the views by ascending handle: `location`, then the `internal_location` column of a CollectionManifest -/
+structure LocNum where
+  dirs : List Nat := []
+  md5s : List (List Nat) := []
+
+def LocNum.add (n : LocNum) : Loc → LocNum
+  | .dir d | .file d _ => if n.dirs.contains d then n else { n with dirs := n.dirs ++ [d] }
+  | .md5 m => if n.md5s.contains m then n else { n with md5s := n.md5s ++ [m] }
+  | _ => n
+
+def locNumbering (w : World) : LocNum :=
+  (sortedHandles w.views).foldl (fun n h =>
+    match w.views.cell h with
+    | some vc =>
+      let n1 := n.add vc.loc
+      match vc.kind with
+      | .zipm | .multi | .standalone =>
+        vc.rows.foldl (fun n r =>
+          match w.rows[r]? with
+          | some row => n.add row.iloc
+          | none => n) n1
+      | _ => n1
+    | none => n) {}
+
+def idxOf {α : Type} [BEq α] (l : List α) (x : α) : String :=
+  match l.findIdx? (· == x) with
+  | some k => toString k
+  | none => "?"
+
+def showLoc (n : LocNum) : Loc → String
+  | .none => "-"
+  | .dir d => "T" ++ idxOf n.dirs d
+  | .file d i => "T" ++ idxOf n.dirs d ++ "/" ++ toString i ++ ".sig"
+  | .md5 m => "M" ++ idxOf n.md5s m
+  | .grp g => "g" ++ toString g ++ ".sig"
+  | .num i => toString i ++ ".sig"
+  | .label s => s
+
+def showRow (w : World) (ln : LocNum) (num : List (Nat × Nat)) (r : Nat) : String :=
   let n := match num.lookup r with
     | some k => toString k
     | none => "?"
@@ -91,9 +130,9 @@ def showRow (w : World) (num : List (Nat × Nat)) (r : Nat) : String :=
     let m := row.snap.mh
     let sref := match row.sig with
       | some c => refName "s" w.sigs c
-      | none => "-"
+      | none => if row.anon then "s?" else "-"
     let nkeys := if row.hasSigKey then 12 else 11
-    s!"R{n}({nkeys}.{dash row.snap.name}.{dash row.snap.filename}.{m.mins.length}.{b2s m.trackAbundance}.{sref})"
+    s!"R{n}({nkeys}.{dash row.snap.name}.{dash row.snap.filename}.{m.mins.length}.{b2s m.trackAbundance}.{sref}.{showLoc ln row.iloc})"
 
 def kindName : VKind → String
   | .linear => "linear" | .lazy => "lazy" | .zipnm => "zipnm" | .zipm => "zipm" | .multi => "multi"
@@ -104,7 +143,7 @@ def kindName : VKind → String
 def showPicks (ps : List (List String)) : String :=
   "".intercalate (ps.map fun p => "(" ++ "+".intercalate ((p.mergeSort strLe).eraseDups) ++ ")")
 
-def showAnswers (w : World) (vc : ViewCell) : String :=
+def showAnswers (w : World) (ln : LocNum) (vc : ViewCell) : String :=
   let n := match viewLen w vc with
     | .ok k => toString k
     | .error e => "!" ++ e
@@ -121,20 +160,27 @@ def showAnswers (w : World) (vc : ViewCell) : String :=
     | .mixed => "?"
     | .stale => "~"
     | .err e => "!" ++ e
-    | .names l => if l.isEmpty then "." else "+".intercalate ((l.map dash).mergeSort strLe)
-  s!"n={n};in={member};f={found}"
+    | .names l =>
+      if l.isEmpty then "." else "+".intercalate ((l.map fun (p : String × Loc) => dash p.1 ++ "@" ++ showLoc ln p.2).mergeSort strLe)
+  let locs := match viewSigs w vc, viewLocs w vc with
+    | .error e, _ => "!" ++ e
+    | _, .error e => "!" ++ e
+    | .ok l, .ok ls =>
+      if l.isEmpty then "."
+      else "+".intercalate (((l.zip ls).map fun (p : SigOut × Loc) => dash p.1.2.name ++ "@" ++ showLoc ln p.2).mergeSort strLe)
+  s!"n={n};in={member};f={found};L={locs}"
 
-def showView (w : World) (num : List (Nat × Nat)) (vc : ViewCell) : String :=
+def showView (w : World) (ln : LocNum) (num : List (Nat × Nat)) (vc : ViewCell) : String :=
   let own := match vc.kind with
-    | .linear => "m=" ++ ",".intercalate (vc.sigs.map (refName "s" w.sigs))
+    | .linear => "m=" ++ ",".intercalate (vc.vals.map (fun _ => "s?") ++ vc.sigs.map (refName "s" w.sigs))
     | .sbt => "m=" ++ ",".intercalate ((vc.sigs.map (refName "s" w.sigs)).mergeSort strLe) ++ ";p=" ++ showPicks vc.picks
     | .lazy => "db=" ++ refName "v" w.views vc.db ++ ";sel=" ++ showSel vc.sel
     | .zipnm | .sqlite | .lcasql => "sel=" ++ showSel vc.sel
     | .sbtdisk => "p=" ++ showPicks vc.picks
-    | .zipm | .standalone => "rows=" ++ ",".intercalate (vc.rows.map (showRow w num))
-    | .multi => s!"par=p:{vc.scaled};rows=" ++ ",".intercalate (vc.rows.map (showRow w num))
+    | .zipm | .standalone => "rows=" ++ ",".intercalate (vc.rows.map (showRow w ln num))
+    | .multi => s!"pre={vc.scaled};rows=" ++ ",".intercalate (vc.rows.map (showRow w ln num))
     | .lca => s!"n={vc.vals.length};p=" ++ showPicks vc.picks
-  kindName vc.kind ++ ";" ++ own ++ ";" ++ showAnswers w vc ++ ";" ++ showSigs w vc
+  kindName vc.kind ++ ";loc=" ++ showLoc ln vc.loc ++ ";" ++ own ++ ";" ++ showAnswers w ln vc ++ ";" ++ showSigs w vc
 
 def showWorld (w : World) : String :=
   let mhs := showHeap w.heap
@@ -143,9 +189,10 @@ def showWorld (w : World) : String :=
     | some c, some sc => s!"s{h}@{(clsOf w.sigs c).getD h}=" ++ showSigOut (sc.frozen, sc.val)
     | _, _ => s!"s{h}@?"
   let num := rowNumbering w
+  let ln := locNumbering w
   let vs := (sortedHandles w.views).map fun h =>
     match w.views.cid h, w.views.cell h with
-    | some c, some vc => s!"v{h}@{(clsOf w.views c).getD h}=" ++ showView w num vc
+    | some c, some vc => s!"v{h}@{(clsOf w.views c).getD h}=" ++ showView w ln num vc
     | _, _ => s!"v{h}@?"
   " ".intercalate (mhs ++ ss ++ vs)
 
@@ -250,6 +297,17 @@ def parse (line : String) : Option Obj.Op :=
   | "vro" :: name :: v :: qs => do pure (.vRead name (← nat? v) (← nats? qs))
   | "vmf" :: name :: v :: u :: ss => do pure (.vManifest name (← nat? v) (← nat? u) (← nats? ss))
   | "vzipg" :: r :: m :: k :: ss => do pure (.vZipGroups (← nat? r) (← bool? m) (← nat? k) (← nats? ss))
+  | "vmultiof" :: r :: pre :: ins => do
+    let inputs ← ins.mapM (fun t =>
+      match t.splitOn ":" with
+      | [v, lab] => do
+        let l ← name? lab
+        pure ((← nat? v), if l == "" then none else some l)
+      | _ => none)
+    pure (.vMultiOf (← nat? r) (← bool? pre) inputs)
+  | ["vfrom", r, kind, v] => do pure (.vFrom (← nat? r) (← nat? kind) (← nat? v))
+  | ["vstandof", r, v] => do pure (.vStandOf (← nat? r) (← nat? v))
+  | ["vmpath", r, mode, v] => do pure (.vMPath (← nat? r) (← nat? mode) (← nat? v))
   | _ => (parseMh line).map .mh
 
 def stepLine (w : World) (line : String) : World × String :=
